@@ -8,6 +8,7 @@ CONSTANTS
   FreeAnywhere = FALSE
 CONSTRAINT Depth
 INVARIANT StepRefines
+INVARIANT BlocksRefine
 INVARIANT L1Disjoint
 INVARIANT L1Inside
 INVARIANT ArrIndexed
